@@ -481,7 +481,7 @@ func genIntn(c *lib.Ctx) {
 		}
 	}
 	c.Comment("rand.intn random stream")
-	for i := 0; i < c.Scale(3000, 200000); i++ {
+	for i := 0; i < c.Scale(20000, 1000000); i++ {
 		var n int64
 		switch r.Intn(4) {
 		case 0:
@@ -587,7 +587,7 @@ func genSample(c *lib.Ctx) {
 		}
 	}
 	c.Comment("rand.sample random stream")
-	for i := 0; i < c.Scale(3000, 150000); i++ {
+	for i := 0; i < c.Scale(20000, 500000); i++ {
 		k, n := r.Range(0, 8), r.Range(0, 14)
 		words := int(n) + r.Intn(4)
 		var s []byte
@@ -790,7 +790,7 @@ func genRounds(c *lib.Ctx) {
 
 	c.Comment("mp.round random stream")
 	alphabet := []string{"f0", "f1", "f2", "f3", "f4", "f5", "f6", "f7", "-"}
-	for i := 0; i < c.Scale(500, 12000); i++ {
+	for i := 0; i < c.Scale(3000, 100000); i++ {
 		nc, np := r.Intn(7), r.Intn(11)
 		switch r.Intn(8) {
 		case 0:
